@@ -34,6 +34,7 @@ type Obligation struct {
 	Cover   bool // a cover query: expected sat
 	id      int
 	smtPath string
+	CrossSolver string
 }
 
 type envEntry struct {
@@ -128,6 +129,9 @@ type Unit struct {
 	termOrigin    map[string]string
 	guardedTerm   map[string]guardedVal
 	epochAlloc    map[int]Term
+	paramAlias    map[string]string
+	implOf        string
+	coverStatus   string
 }
 
 type closureSite struct {
